@@ -180,30 +180,8 @@ func checkWalkCuts(c *Ctx, res *report.Result, rule string) {
 					}
 				}
 			}
-			// ... and exactly once: after the callback walked a subtree itself (recursive call), it must not let the
-			// library walk the same subtree again (Continue): names would be mapped twice, which differs from once
-			// for chained (a->b, b->c) or swapped mappings, and the second walk ignores the event shortcut
-			for _, call := range flow.Calls(cb) {
-				// (a translation clause only: for the access check of C16 a second look at the same names is harmless)
-				if flow.StaticCallee(call.Common()) != f || res.Property != "C12" {
-					continue
-				}
-				twice := ""
-				for _, b := range cb.Blocks {
-					if len(b.Instrs) == 0 {
-						continue
-					}
-					ret, isRet := b.Instrs[len(b.Instrs)-1].(*ssa.Return)
-					if !isRet || len(ret.Results) < 1 {
-						continue
-					}
-					for _, alt := range actionAlts(flow.Ret(ret)[0], b, 0) {
-						if (alt.val == "Continue" || alt.val == "") && flow.ReachBlock(call.Block(), alt.block, nil) {
-							twice = instrPos(c.Prog, ret)
-						}
-					}
-				}
-				res.Check(twice == "", rule, name+": a subtree walked by the callback itself is not walked again", instrPos(c.Prog, call), "every return after the recursive call is Skip or Stop", "after the recursive visitNamespace call the callback can return Continue ("+twice+"): the library then descends into the same events and translates them a second time")
+			if res.Property == "C12" {
+				checkNoDoubleWalk(c, res, rule, f, cb)
 			}
 			res.Check(ok, rule, name+": History events are walked by per-event recursion", fnPos(c.Prog, cb),
 				"the History branch calls visitNamespace on every element of GetEvents()", "the History branch returns Skip but no recursive visitNamespace call over GetEvents() elements was found: events inside a History would not be walked")
@@ -791,4 +769,33 @@ func checkBlobExamined(c *Ctx, res *report.Result, rule string) {
 	}
 	r := flow.FindPath(flow.Point{Block: f.Blocks[0]}, isOKReturn, isDecode, func(a, b *ssa.BasicBlock) bool { return !legit(a, b) })
 	res.Check(!r.Found, rule, "translateOneDataBlob: only nil or empty blobs are passed on without being decoded", fnPos(c.Prog, f), "every other nil-error return lies behind DeserializeEvents", "a non-empty blob can be returned with a nil error without having been decoded (path "+flow.BlockPath(r.Via)+"): the names inside it are neither translated nor access-checked")
+}
+
+// checkNoDoubleWalk: after the visit callback walked a subtree itself (a recursive call of the enclosing visitor), it
+// must not let the library walk the same subtree again (Continue): names would be mapped twice, which differs from
+// once for chained (a->b, b->c) or swapped mappings, and the second walk ignores the event shortcut. A translation
+// clause (C12, C13): for the access check of C16 a second look at the same names is harmless.
+func checkNoDoubleWalk(c *Ctx, res *report.Result, rule string, f, cb *ssa.Function) {
+	name := f.Name()
+	for _, call := range flow.Calls(cb) {
+		if flow.StaticCallee(call.Common()) != f {
+			continue
+		}
+		twice := ""
+		for _, b := range cb.Blocks {
+			if len(b.Instrs) == 0 {
+				continue
+			}
+			ret, isRet := b.Instrs[len(b.Instrs)-1].(*ssa.Return)
+			if !isRet || len(ret.Results) < 1 {
+				continue
+			}
+			for _, alt := range actionAlts(flow.Ret(ret)[0], b, 0) {
+				if (alt.val == "Continue" || alt.val == "") && flow.ReachBlock(call.Block(), alt.block, nil) {
+					twice = instrPos(c.Prog, ret)
+				}
+			}
+		}
+		res.Check(twice == "", rule, name+": a subtree walked by the callback itself is not walked again", instrPos(c.Prog, call), "every return after the recursive call is Skip or Stop", "after the recursive "+name+" call the callback can return Continue ("+twice+"): the library then descends into the same events and translates them a second time")
+	}
 }
